@@ -231,7 +231,7 @@ CONTRACTS = {
                 "(fbs[j][1].g_published is fbs[j][0].g_value if fbs[j][0].g_ok else fbs[j][1].g_published is old(fbs[j][1].g_published))))",
             "counted": "self.g_ep_cnt == old(self.g_ep_cnt) + 1 and g_seq >= old(g_seq)",
         }, **G2),
-        "ensures_raise": G1,
+        "ensures_raise": dict(G1, **{"C10.R3 with the FMS attached the iteration always reaches the will_reset_to reset (no exceptional exit skips it)": "not g_fms"}),
     },
     f"{MR}._on_mode_enable_components": {
         "receivers": [MR], "params": {}, "raises": True,
@@ -321,7 +321,7 @@ CONTRACTS.update({
     f"{MR}._operatorControl": {
         "receivers": [MR], "params": {}, "raises": True, "modifies": _LOOP_MOD,
         "loops": {0: {"inv": {
-            "C05.T1 per completed iteration teleopPeriodic and _enabled_periodic ran exactly once each (one NotifierDelay.wait() per iteration)":
+            "C05.T1 (also C10, C11: components, feedbacks and the reset run in every iteration, also when teleopPeriodic raised on the FMS) per completed iteration teleopPeriodic and _enabled_periodic ran exactly once each (one NotifierDelay.wait() per iteration)":
                 "self.g_mode_cnt == old(self.g_mode_cnt) + delay.g_k and self.g_ep_cnt == old(self.g_ep_cnt) + delay.g_k",
             "C05.T2 the mode's own code ran before the components in the last iteration": _MODE_FIRST,
             "C05.T3 /robot/mode names the mode": "self._MagicRobot__nt_put_mode.g_value == 'teleop'",
@@ -342,7 +342,7 @@ CONTRACTS.update({
     f"{MR}._disabled": {
         "receivers": [MR], "params": {}, "raises": True, "modifies": _LOOP_MOD,
         "loops": {0: {"inv": {
-            "C05.D1 per completed iteration disabledPeriodic and the periodics ran exactly once each": "self.g_mode_cnt == old(self.g_mode_cnt) + delay.g_k and self.g_dp_cnt == old(self.g_dp_cnt) + delay.g_k",
+            "C05.D1 (also C11: feedbacks every iteration) per completed iteration disabledPeriodic and the periodics ran exactly once each": "self.g_mode_cnt == old(self.g_mode_cnt) + delay.g_k and self.g_dp_cnt == old(self.g_dp_cnt) + delay.g_k",
             "C05.D2 no component's execute() runs in disabled mode": _NO_EXEC + " and self.g_ep_cnt == old(self.g_ep_cnt)",
             "C05.D3 /robot/mode names the mode": "self._MagicRobot__nt_put_mode.g_value == 'disabled'",
             "C06.D4 on entering disabled every on_disable ran once, before disabledInit": _DIS_ONCE_BEFORE + " and self.g_init_cnt == old(self.g_init_cnt) + 1",
@@ -361,7 +361,7 @@ CONTRACTS.update({
     f"{MR}._test": {
         "receivers": [MR], "params": {}, "raises": True, "modifies": _LOOP_MOD,
         "loops": {0: {"inv": {
-            "C05.X1 per completed iteration testPeriodic and the periodics ran exactly once each": "self.g_mode_cnt == old(self.g_mode_cnt) + delay.g_k and self.g_dp_cnt == old(self.g_dp_cnt) + delay.g_k",
+            "C05.X1 (also C11: feedbacks every iteration) per completed iteration testPeriodic and the periodics ran exactly once each": "self.g_mode_cnt == old(self.g_mode_cnt) + delay.g_k and self.g_dp_cnt == old(self.g_dp_cnt) + delay.g_k",
             "C05.X2 no component's execute() runs in test mode": _NO_EXEC + " and self.g_ep_cnt == old(self.g_ep_cnt)",
             "C05.X3 /robot/mode names the mode": "self._MagicRobot__nt_put_mode.g_value == 'test'",
             "delay consistent and live": _DELAY_OK, "watchdog consistent": "inv(self.watchdog) and watchdog is self.watchdog",
@@ -373,6 +373,11 @@ CONTRACTS.update({
             "C05.X3 /robot/mode was 'test' throughout": "self._MagicRobot__nt_put_mode.g_value == 'test'",
         }, **G2),
         "ensures_raise": G1,
+    },
+    f"{MR}.endCompetition": {
+        "receivers": [MR], "params": {}, "modifies": ["self._MagicRobot__done", "self._automodes.robot_exit"],
+        "ensures": {"C06.Z1 endCompetition only raises the two exit flags (it may be called from another thread in the middle of an iteration: it must not run component callbacks itself)":
+                    "self._MagicRobot__done and self._automodes.robot_exit"},
     },
     f"{MR}.autonomous": {
         "receivers": [MR], "params": {}, "raises": True,
